@@ -4,7 +4,7 @@
    irreflexive, and > <= >= are derived from < exactly as the property demands.
    REFUTED (known finding, see known_findings.txt): transitivity of the vector-level <. *)
 From Coq Require Import ZArith List Bool.
-From Cntgs Require Import Base Layout Mem Vector Proxy World CompareThm.
+From Cntgs Require Import Base Layout Mem Vector Proxy World Spec Rep CompareThm ElemThm CmpContent.
 Import ListNotations.
 Local Open Scope Z_scope.
 
@@ -22,6 +22,25 @@ Theorem C14_reference_less_transitive : forall L m1 fl1 m2 fl2 m3 fl3,
   elem_less L m1 fl1 m3 fl3 = true.
 Proof. exact elem_less_trans. Qed.
 Print Assumptions C14_reference_less_transitive.
+
+(* the result of < depends on the logical content only: it equals a function of the two
+   tuples, whatever the memories, positions, junk and fixed sizes of the operands *)
+Theorem C14_reference_less_depends_on_content_only : forall L, wf_plist L = true ->
+  forall t1 t2 fc1 fc2 m1 m2 a1 a2,
+  tuple_ok L fc1 0 t1 -> tuple_ok L fc2 0 t2 -> elem_at L m1 a1 t1 -> elem_at L m2 a2 t2 ->
+  elem_less L m1 (ref_fl L t1 a1) m2 (ref_fl L t2 a2) = tuple_less L t1 t2.
+Proof. exact elem_less_content. Qed.
+Print Assumptions C14_reference_less_depends_on_content_only.
+
+(* a == b implies neither a < b nor b < a *)
+Theorem C14_equal_elements_are_not_less : forall L, wf_plist L = true ->
+  forall t1 t2 fc1 fc2 m1 m2 a1 a2,
+  tuple_ok L fc1 0 t1 -> tuple_ok L fc2 0 t2 -> elem_at L m1 a1 t1 -> elem_at L m2 a2 t2 ->
+  elem_equal L m1 (ref_fl L t1 a1) m2 (ref_fl L t2 a2) = true ->
+  elem_less L m1 (ref_fl L t1 a1) m2 (ref_fl L t2 a2) = false /\
+  elem_less L m2 (ref_fl L t2 a2) m1 (ref_fl L t1 a1) = false.
+Proof. exact equal_elements_are_not_less. Qed.
+Print Assumptions C14_equal_elements_are_not_less.
 
 Theorem C14_vector_less_irreflexive : forall L v, L <> [] -> vec_less L v v = false.
 Proof. exact vec_less_irrefl. Qed.
